@@ -231,7 +231,8 @@ class Harness:
             from pyworkers.utils import Pipe
             kw['results_pipe'] = Pipe()          # what Pool.add_worker passes: a real pipe that the pool multiplexes
         if pers:
-            target = T.p_item_raise3 if case.get('ending') == 'exc' else T.p_item_big if case.get('ending') == 'big' else T.p_item
+            target = (T.p_item_raise3 if case.get('ending') == 'exc' else T.p_item_big if case.get('ending') == 'big'
+                      else T.p_item_stubborn if case.get('ending') == 'stubborn' else T.p_item)
             args = (mpath,)
         else:
             target = T.TARGETS[case['ending']]
@@ -377,6 +378,18 @@ class Harness:
                 except BaseException:  # noqa
                     pass
             report = {'file': 'none', 'func': 'after_finish', 'line': 0, 'stack': []}
+        if fault == 'term_stubborn':
+            # the worker is inside a target that swallows the request: the caller insists (force=True) after a short grace
+            t1 = time.time()
+            while 'item 2 start' not in _marks(mpath) and time.time() - t1 < 8:
+                time.sleep(0.01)
+            time.sleep(0.2)
+            try:
+                r = w.terminate(timeout=0.5, force=True)
+                term_ret = 'T' if r is True else 'F' if r is False else 'other'
+            except BaseException as e:  # noqa
+                term_ret = 'raised:' + type(e).__name__
+            report = {'file': 'targets.py', 'func': 'p_item_stubborn', 'line': 0, 'stack': [['persistent.py', 'do_work', 0], ['targets.py', 'p_item_stubborn', 0]]}
         if fault == 'term_idle':
             # a persistent worker that has answered everything and sits in its blocking receive; the caller is patient
             # (timeout=None): the request must still reach the child and end it
@@ -901,7 +914,9 @@ def _scn(case, where, marks=(), ev=None):
          'target_started': 'T' if any(m == 'start' or m.endswith(' start') for m in marks) else 'F',
          'target_finished': 'T' if any(m in ('ret', 'raise') for m in marks) else 'F',
          'in_finally': 'F', 'in_try': 'F', 'in_work': 'F', 'region': 'none', 'has_finally': 'T' if (not case.get('persistent') and case.get('ending') in ('ret', 'exc', 'slowfin')) else 'F'}
-    s['ending'] = {'slow': 'ret', 'slowfin': 'ret', 'linger': 'ret', 'unreb2': 'unreb'}.get(s['ending'], s['ending'])
+    s['ending'] = {'slow': 'ret', 'slowfin': 'ret', 'linger': 'ret', 'unreb2': 'unreb', 'stubborn': 'ret'}.get(s['ending'], s['ending'])
+    if s['fault'] == 'term_stubborn':
+        s['fault'] = 'sigterm'                 # ended by force: nothing can be reported by the child
     if s['fault'] == 'term_idle':
         s['fault'] = 'pause'                   # a graceful request that reaches a child blocked in its receive
     if where:
